@@ -76,6 +76,18 @@ Theorem C03_bundled_enums_agree : forallb enum_agree_on_shared_names bundled_enu
 Proof. exact bundled_enums_agree. Qed.
 Print Assumptions C03_bundled_enums_agree.
 
+(* every output package directory, each of its ancestors and the root are in the set of directories that
+   receive an __init__.py *)
+Theorem C03_output_dirs :
+  forall D p q, In p (output_packages D) -> In q (prefixes (pkg_dir p)) -> In q (output_dirs D).
+Proof. exact output_dirs_complete. Qed.
+Print Assumptions C03_output_dirs.
+
+Theorem C03_output_dirs_self_and_root :
+  forall D p, In p (output_packages D) -> In (pkg_dir p) (output_dirs D) /\ In [] (output_dirs D).
+Proof. exact (fun D p H => conj (output_dirs_complete D p _ H (prefixes_self_in _)) (output_dirs_complete D p _ H (prefixes_nil_in _))). Qed.
+Print Assumptions C03_output_dirs_self_and_root.
+
 (* ---- where the pinned plugin violates the full statement (names_ok cannot be dropped) ---- *)
 Theorem C03_collision_refuted :
   protoc_wf D_k1 = true
